@@ -215,3 +215,57 @@ def u_and_f_signature(ctx: Ctx):
                "states / choices / value-function arguments are selected by membership (k in <names>) and passed unchanged"
                if ok else "an argument filter of u_and_f is not 'k in <names>' or changes the values", lhs=str(len(comps)))
     ctx.floor("signature_lists", 1)
+
+
+@rule("R0.UNDEF")
+def defined_before_use(ctx: Ctx):
+    """No value that is *definitely* unassigned is used: returns, call arguments, loop updates and
+    raise conditions contain no 'undef' outside the not-taken branch of a join."""
+    prog = ctx.prog
+    bad = []
+    n = 0
+
+    def scan(t, depth=0):
+        """Yield undefined uses; an undef that is one arm of a phi is a conditional definition."""
+        if not isinstance(t, tuple) or depth > 80:
+            return
+        if t == ("undef",):
+            yield t
+            return
+        if is_term(t) and t[0] in ("phi", "ifexp"):
+            yield from scan(t[1], depth + 1)
+            for arm in (t[2], t[3]):
+                if arm != ("undef",):
+                    yield from scan(arm, depth + 1)
+            return
+        for x in t:
+            if isinstance(x, tuple):
+                yield from scan(x, depth + 1)
+
+    for name, fr in all_frames(prog).items():
+        if name.startswith(("lcmref", "lcmfix")):
+            continue
+        q = name.split("@")[0]
+        terms = [fr.ret] if fr.ret is not None else []
+        terms += [t for _c, t, _n in fr.effects] + [t for _c, t, _n in fr.raises]
+        terms += [c for cs, _t, _n in fr.raises for c in cs]
+        for lid, lp in prog.loops.items():
+            if lp.func == fr.qualname and "@" not in lid:
+                terms += [v for v in lp.next.values()] + [lp.iter]
+        n += len(terms)
+        for t in terms:
+            if any(True for _ in scan(t)):
+                bad.append((q, t))
+                break
+    ctx.count("frames_scanned", len(all_frames(prog)))
+    seen = set()
+    for q, t in bad:
+        if q in seen:
+            continue
+        seen.add(q)
+        ctx.ob(f"UNDEF:{q.removeprefix('lcm.')}", False, prog.where(t),
+               f"{q} uses a local variable that is never assigned on the path (NameError / UnboundLocalError at run time)",
+               lhs=show(t)[:200])
+    if not bad:
+        ctx.ob("UNDEF:all-uses-defined", True, "", f"every value used in the {n} results, effects, loop updates and guards of lcm is assigned first")
+    ctx.floor("frames_scanned", 100)
